@@ -12,6 +12,7 @@ import numpy as np
 import irispie as ir
 
 from mc import engine
+from ref import gauss
 from ref import linre
 from props import c03
 
@@ -21,7 +22,7 @@ RULE = ("models x N in 2..4 x every missing-data mask of the n_y x N panel x dev
         "(model, N, mask, deviation, data) with at least one observed cell")
 MANIFEST_ENTRY = dict(level="exploration", design="DESIGN.md section 4 / C08",
     technique="bounded-exhaustive enumeration of all missing-data masks on generated state-space models; data reproduction, residual substitution into the harness's own equations, re-simulation and level/deviation differential oracles",
-    text="For the 13 (quick) / 18 (thorough) solved models of C03 and 3 unit-root trend-cycle models under the default diffuse initialisation (incl. log observables, lagged state in the measurement equation, no-measurement-shock and forward-looking models), every N in 2..4 and EVERY missing-data mask: smoothed and updated medians equal the data in every observed cell; every measurement equation holds in every observed cell with smoothed states and smoothed measurement shocks; every transition equation of a backward-looking model holds exactly with the smoothed shocks; simulating the model (real first-order simulator) from the smoothed initial condition with the smoothed shocks reproduces the smoothed variables; the filter in deviation mode on data minus (over, for log-variables) the harness's own steady state equals level-mode results minus steady state (stationary models); with shock means supplied as data (an unanticipated mean and an anticipated shock known from the start) the data are reproduced and the re-simulation holds with the given anticipated shocks.",
+    text="For the 13 (quick) / 18 (thorough) solved models of C03 and 4 unit-root models (trend-cycle, and a unit root whose drift comes through a stable variable: non-flat steady state) under the default diffuse initialisation (incl. log observables, lagged state in the measurement equation, no-measurement-shock and forward-looking models), every N in 2..4 and EVERY missing-data mask: smoothed and updated medians equal the data in every observed cell; every measurement equation holds in every observed cell with smoothed states and smoothed measurement shocks; every transition equation of a backward-looking model holds exactly with the smoothed shocks; simulating the model (real first-order simulator) from the smoothed initial condition with the smoothed shocks reproduces the smoothed variables; the filter in deviation mode on data minus (over, for log-variables) the harness's own steady state equals level-mode results minus steady state (stationary models: the harness's own steady state; unit-root models: the model's own steady path, masks that do not identify the unit-root level counted, not judged); with shock means supplied as data (an unanticipated mean and an anticipated shock known from the start) the data are reproduced and the re-simulation holds with the given anticipated shocks.",
     note="Trusted: ref/linre.py equations and steady state; first-order simulator (C01). prepend_initial is not used (it crashes on this code base - adjacent defect outside the statement), so equations needing pre-sample smoothed states are checked from the first period where all lags are inside the span.")
 ASSUMPTIONS = ["the first-order simulator is correct (C01)"]
 
@@ -48,6 +49,25 @@ def check_config(spec, m, N, dev, res, ctx, only_mask=None):
         ss[spec.obs(k)] = sum(c * ss_vec[j] for (j, s, c) in e["terms"]) + e.get("const", 0.0)
     backward = spec.max_lead() == 0
     setting = c03.std_settings(spec, N, ctx.seed)[0]
+    joint = []
+
+    def level_identified(mask):
+        """unit-root models: do the observed cells identify the fixed unknown initial condition?  (structural: the
+        conditioning of the GLS normal matrix of the stacked oracle of C03 depends on the mask only)"""
+        if not joint:
+            sol = m.get_solution()
+            vec = m.solution_vectors
+            q2n = m.create_qid_to_name()
+            ynames = [q2n[t.qid] for t in vec.measurement_variables]
+            nu, nw = len(vec.transition_shocks), len(vec.measurement_shocks)
+            H = sol.H if nw else np.zeros((len(ynames), 0))
+            joint.append(gauss.JointFixedUnknown(sol.Ta, sol.Pa, sol.Ka, sol.Ua, sol.Za, H, sol.D, int(sol.num_unit_roots),
+                                                 [1.0] * nu, [[1.0] * nu] * N, [[1.0] * nw] * N, deviation=False))
+            joint.append([ynames.index(spec.obs(i)) for i in range(ny)])
+        J, yperm = joint
+        cells = [(t, yperm[i]) for t in range(N) for i in range(ny) if mask[i, t]]
+        return J.estimate_delta(cells, {c: 0.0 for c in cells}) <= 1e8
+
     for mask in (c03.all_masks(ny, N) if only_mask is None else [np.array(only_mask, dtype=bool)]):
         if not mask.any():
             res.exclude("no_observation_at_all")
@@ -143,10 +163,24 @@ def check_config(spec, m, N, dev, res, ctx, only_mask=None):
             except Exception as e:
                 bad("exception", "re-simulation: %s: %s" % (type(e).__name__, str(e)[:300]), error=type(e).__name__)
         # (f) deviation mode on data minus steady state == level results minus steady state
-        if not dev and not unit_root:
+        if not dev and not (unit_root and is_log):
             res.ev()
             try:
-                fd = c03.Filtered(spec, m, to_impl(ydev), mask, N, True, False, None)
+                if unit_root and not level_identified(mask):
+                    # the observed cells say nothing about some unit-root level: its estimate is arbitrary in either mode
+                    res.count("deviation_vs_level_unit_root_level_not_identified")
+                    continue
+                if unit_root:
+                    # the steady level of a unit-root model is not pinned down by the equations: "steady state" is the
+                    # model's own steady path (whatever level it picked, plus its steady growth), a solution of the model
+                    path_db = ir.Databox.steady(m, START >> (START + N - 1), deviation=False)
+                    path = {n_: series_of(path_db, n_, N) for n_ in [spec.var(j) for j in range(spec.n)] + [spec.obs(k) for k in range(ny)]}
+                    ydev_f = np.array([ylev[i] - path[spec.obs(i)] for i in range(ny)])
+                    res.count("deviation_vs_level_unit_root")
+                else:
+                    path = {n_: np.full(N, ss[n_]) for n_ in ss}
+                    ydev_f = ydev
+                fd = c03.Filtered(spec, m, to_impl(ydev_f), mask, N, True, False, None)
                 for key in ("smooth_med", "update_med", "predict_med"):
                     for n_ in [spec.var(j) for j in range(spec.n)] + [spec.obs(k) for k in range(ny)] + [spec.shk(j) for j in range(spec.n)]:
                         logged = is_log and n_[0] in "vo"
@@ -154,7 +188,7 @@ def check_config(spec, m, N, dev, res, ctx, only_mask=None):
                         b = series_of(fd.out[key], n_, N)
                         a = np.log(a) if logged else a
                         b = np.log(b) if logged else b
-                        exp = a - (ss[n_] if n_[0] in "vo" else 0.0)
+                        exp = a - (path[n_] if n_[0] in "vo" else 0.0)
                         both = np.isfinite(exp) | np.isfinite(b)
                         if not np.allclose(exp[both], b[both], rtol=1e-8, atol=1e-9, equal_nan=False):
                             bad("deviation_vs_level", "%s %s: level - steady %s, deviation run %s" % (key, n_, np.round(exp, 9).tolist(), np.round(b, 9).tolist()), what=key)
@@ -260,7 +294,8 @@ def run(ctx, total, info):
     shards.sort(key=lambda s: -s["w"])
     engine.run_shards(__name__, "shard", shards, ctx, total)
     info["exhaustive"] = True
-    info["floors"] = {"cases": (len(total.nontrivial), 800), "shocks_from_data_runs": (total.counters.get("shocks_from_data_runs", 0), 60)}
+    info["floors"] = {"cases": (len(total.nontrivial), 800), "shocks_from_data_runs": (total.counters.get("shocks_from_data_runs", 0), 60),
+                      "deviation_vs_level_unit_root": (total.counters.get("deviation_vs_level_unit_root", 0), 300)}
 
 
 def replay(case):
